@@ -62,7 +62,7 @@ def templates(tier="quick"):
         # S1 a two-output statement whose depfile names both outputs and two headers, oddly spelled
         a = Stmt(["o1", "sub/o2"], ex=["s"], hidden=["h", "inc/h2"], depfile=True)
         a.dep_all_outs = True
-        a.dep_spell = {"sub/o2": sp("sub/o2"), "h": sp("h"), "inc/h2": sp("inc/h2")}
+        a.dep_spell = {"o1": sp("o1"), "sub/o2": sp("sub/o2"), "h": sp("h"), "inc/h2": sp("inc/h2")}
         v = Variant("v0", [a, Stmt("t", ex=["o1", "sub/o2"])], spell={"s": sp("s"), "sub/o2": sp("sub/o2"), "o1": sp("o1")})
         ops, b = _ops(v, ["t", "sub/o2"], tool_names=["o1", "sub/o2"])
         T.append(scenario("c14/depfile_two_outputs/" + name, "c14", [v], ops=ops, init=[b], depth=d, tags=["spelling", name],
